@@ -33,3 +33,39 @@ Example C09_example :
       {| co := Success; crtt := 8; cinf := 1; cend := 42 |} ]
   = [(6, 4, true); (8, 1, false)].
 Proof. vm_compute. reflexivity. Qed.
+
+(* ---- windowed limit ---- *)
+From GCL Require Import Model.Limits Proofs.MeasureProofs Proofs.WindowedProofs.
+
+(* WindowedLimit.OnSample forwards to its delegate exactly what the window-level step says, with the sample's start time *)
+Theorem C09_windowed_step w s :
+  windowed_step w s =
+  match wd_step (wd_cfg w) (wd_win w, wd_next w) s with
+  | ((wn, nx), None) =>
+      Some (mk {| wd_cfg := wd_cfg w; wd_next := nx; wd_win := wn; wd_inner := wd_inner w |} []
+               (tag_outer (common_sample (s_rtt s) (s_inflight s) (s_drop s))) (if s_rtt s <? w_thr (wd_cfg w) then 101 else 102))
+  | ((wn, nx), Some (r, i, d)) =>
+      match algo_step (wd_inner w) {| s_start := s_start s; s_rtt := r; s_inflight := i; s_drop := d; s_draw := s_draw s; s_lgi := s_lgi s; s_lgf := s_lgf s |} with
+      | None => None
+      | Some o => Some (mk {| wd_cfg := wd_cfg w; wd_next := nx; wd_win := wn; wd_inner := o_st o |} (o_notify o)
+                           (tag_outer (common_sample (s_rtt s) (s_inflight s) (s_drop s)) ++ o_emit o) (200 + o_branch o))
+      end
+  end.
+Proof. exact (windowed_is_wd_step w s). Qed.
+Print Assumptions C09_windowed_step.
+
+(* for every sample list: one delegate update per closed window, carrying the fold of ALL qualifying samples (any sample at or above the
+   RTT threshold) since the previous update; the readiness rule is the one coded (the closing sample ends after the period, its in-flight
+   exceeds the window size) *)
+Theorem C09_windowed_windows c l seg nx : wd_run c (win_of (map to_ws seg), nx) l = wspec c seg nx l.
+Proof. exact (windowed_refines c l seg nx). Qed.
+Print Assumptions C09_windowed_windows.
+
+(* the aggregate in closed form: mean RTT of the successes (int64 sum, truncating division; 0 when the window holds only drops), maximum
+   in-flight over all samples, drop flag iff some sample of the window was a drop *)
+Theorem C09_windowed_aggregate seg :
+  let ws := map to_ws seg in
+  wsummary seg = (let n := Z.of_nat (length (ok_rtts ws)) in if n =? 0 then 0 else Z.quot (wrap64 (fold_right Z.add 0 (ok_rtts ws))) n,
+                  fold_right Z.max 0 (infs ws), any_drop ws).
+Proof. exact (wsummary_spec seg). Qed.
+Print Assumptions C09_windowed_aggregate.
